@@ -39,6 +39,7 @@ static std::string functional_equiv(const IoObj *orig, const IoObj *imp, uint64_
 static std::string run_case(const J &c, std::string &sig) {
     sig = "c05/roundtrip";
     const bool wfile = c["wfile"].i() != 0, rfile = c["rfile"].i() != 0;
+    const bool ondisk = c["ondisk"].i() != 0; // read back through a real file (FILE* from fopen / std::ifstream) instead of an in-memory stream
     const J &descs = c["objs"];
     std::vector<IoObj *> built, imported;
     std::vector<std::string> bytes;
@@ -55,8 +56,12 @@ static std::string run_case(const J &c, std::string &sig) {
     // the other transport writes the same bytes
     for (size_t i = 0; i < built.size() && why.empty(); i++) if (io_export_bytes(built[i], !wfile) != bytes[i]) { snprintf(buf, sizeof buf, "%s: FILE and stream exports differ", IONAME[built[i]->type]); why = buf; }
     if (why.empty()) {
-        FILE *F = nullptr; std::istringstream S(all);
-        if (rfile) F = fmemopen((void *)all.data(), all.size(), "rb");
+        FILE *F = nullptr; std::istringstream SS(all); std::ifstream SF;
+        char tmpl[] = "/tmp/c05-XXXXXX"; int tfd = -1;
+        if (ondisk) { tfd = mkstemp(tmpl); if (tfd < 0 || write(tfd, all.data(), all.size()) != (ssize_t)all.size()) { perror("mkstemp"); exit(3); } close(tfd); }
+        if (rfile) F = ondisk ? fopen(tmpl, "rb") : fmemopen((void *)all.data(), all.size(), "rb");
+        else if (ondisk) SF.open(tmpl, std::ios::binary);
+        std::istream &S = ondisk && !rfile ? static_cast<std::istream &>(SF) : static_cast<std::istream &>(SS);
         size_t pos = 0;
         for (size_t i = 0; i < built.size() && why.empty(); i++) {
             IoObj *im = io_import_any(built[i]->type, built[i], F, rfile ? nullptr : &S);
@@ -72,6 +77,7 @@ static std::string run_case(const J &c, std::string &sig) {
             if (why.empty() && (built[i]->type == T_CLOUD || built[i]->type == T_SECRET)) { why = functional_equiv(built[i], im, (uint64_t)c["fseed"].i()); if (!why.empty()) sig = "c05/functional"; }
         }
         if (F) fclose(F);
+        if (ondisk) unlink(tmpl);
     }
     for (auto *o : imported) io_free_imported(o);
     for (auto *o : built) io_free(o);
@@ -94,7 +100,7 @@ static J gen_obj(int forced_type = -1) {
     bool keyset = type == T_CLOUD || type == T_SECRET;
     d.set("n", keyset ? *rng<int>(1, 3) : (type == T_KSKEY ? *rng<int>(1, 8) : type == T_BKKEY ? *rng<int>(1, 3) : *rc::gen::weightedOneOf<int>({{5, rng<int>(1, 40)}, {1, rng<int>(41, 700)}})));
     d.set("N", *rc::gen::weightedOneOf<int>({{5, rng<int>(1, 16)}, {2, rc::gen::element<int>(32, 64, 100, 1024)}}));
-    if (type == T_BKKEY || type == T_TGSWSAMPLE) d.set("N", *rng<int>(1, 16));
+    if (type == T_BKKEY || type == T_TGSWSAMPLE) d.set("N", *rc::gen::weightedOneOf<int>({{6, rng<int>(1, 16)}, {1, rc::gen::element<int>(256, 1024)}}));
     d.set("k", *rng<int>(1, keyset ? 1 : 3));
     int Bgbit = *rng<int>(1, keyset ? 8 : 16);
     d.set("Bgbit", Bgbit).set("l", *rng<int>(1, std::min(keyset ? 2 : 6, 32 / Bgbit)));
@@ -114,7 +120,7 @@ int main(int argc, char **argv) {
         for (auto &d : c["objs"].av) for (const char *k : {"amin", "amax", "amin2", "amax2"}) if (!representable8(d[k].d())) return true;
         return false;
     };
-    H.classify = [](const J &c) { return std::string(c["wfile"].i() ? "wFILE" : "wstream") + "_" + (c["rfile"].i() ? "rFILE" : "rstream") + "_len" + std::to_string(c["objs"].size()); };
+    H.classify = [](const J &c) { return std::string(c["wfile"].i() ? "wFILE" : "wstream") + "_" + (c["rfile"].i() ? "rFILE" : "rstream") + (c["ondisk"].i() ? "-ondisk" : "") + "_len" + std::to_string(c["objs"].size()); };
     if (H.mode == "replay") return H.replay(A.s("replay"));
     if (H.mode == "defaults") { // the two default parameter sets and one default-size key set per set, both transports
         uint64_t seed = A.u("seed", 1);
@@ -127,7 +133,7 @@ int main(int argc, char **argv) {
             d.set("amin", l128 ? std::ldexp(1.0, -15) : 2.44e-5).set("amax", 0.012467).set("amin2", l128 ? std::ldexp(1.0, -25) : 7.18e-9).set("amax2", 0.012467).set("ckind", 0).set("seed", seed + lambda);
             J c = J::object();
             J objs = J::array(); objs.push(d);
-            c.set("objs", objs).set("wfile", tr).set("rfile", tr).set("fseed", seed);
+            c.set("objs", objs).set("wfile", tr).set("rfile", tr).set("fseed", seed).set("ondisk", 1);
             H.exec(c);
         }
         return H.finish();
@@ -138,7 +144,7 @@ int main(int argc, char **argv) {
         J objs = J::array();
         int keysets = 0;
         for (int i = 0; i < len; i++) { J d = gen_obj(); if ((d["type"].i() == T_CLOUD || d["type"].i() == T_SECRET) && ++keysets > 1) d = gen_obj(*rng<int>(0, 11)); objs.push(d); }
-        c.set("objs", objs).set("wfile", *rng<int>(0, 1)).set("rfile", *rng<int>(0, 1)).set("fseed", *genSeed());
+        c.set("objs", objs).set("wfile", *rng<int>(0, 1)).set("rfile", *rng<int>(0, 1)).set("fseed", *genSeed()).set("ondisk", *rc::gen::weightedElement<int>({{2, 0}, {1, 1}}));
         return c;
     });
     return H.finish();
